@@ -15,10 +15,14 @@ PROP_MODULES = {
     'C01': ['obligations.e2_jobs', 'obligations.cache_ops', 'obligations.queue_ops'],
     'C02': ['obligations.e2_jobs', 'obligations.cache_ops'],
     'C13': ['obligations.e2_jobs'],
+    'C06': ['obligations.block_ops'],
+    'C07': ['obligations.cache_ops', 'obligations.queue_ops'],
+    'C14': ['obligations.cache_ops', 'obligations.queue_ops'],
     'C16': ['obligations.e2_jobs'],
 }
 for _p in ('C04', 'C08'):
     PROP_MODULES[_p] = PROP_MODULES[_p] + ['obligations.queue_ops']
+PROP_MODULES['C08'] = PROP_MODULES['C08'] + ['obligations.block_ops']
 
 
 def jobs_for(prop, tier):
